@@ -102,113 +102,15 @@ def model_check(scname, sc=None, invariants=ALL_INVARIANTS, properties=ALL_PROPE
         shutil.rmtree(tmp, ignore_errors=True)
 
 
-class Graph:
-    """The labelled state graph of one scenario as dumped by TLC."""
-
-    def __init__(self, scname, sc):
-        self.scname, self.sc = scname, sc
-        self.states = []         # parsed state dicts in discovery order
-        self.expanded = []       # indices of states satisfying the constraint, in expansion order
-        self.edges = []          # (src index, action dict, dh delta, dst index)
-        self.generated = self.distinct = 0
-
-    def behaviours(self):
-        """Path cover: BFS-tree path to the source of every not yet covered edge, extended greedily through uncovered edges."""
-        out_edges = collections.defaultdict(list)
-        for i, (f, a, dd, t) in enumerate(self.edges):
-            out_edges[f].append(i)
-        parent = {0: None}
-        queue = collections.deque([0])
-        while queue:
-            u = queue.popleft()
-            for i in out_edges.get(u, ()):
-                v = self.edges[i][3]
-                if v not in parent:
-                    parent[v] = i
-                    queue.append(v)
-
-        def path_to(u):
-            p = []
-            while parent[u] is not None:
-                i = parent[u]
-                p.append(i)
-                u = self.edges[i][0]
-            return p[::-1]
-        covered = set()
-        paths = []
-        for i, (f, a, dd, t) in enumerate(self.edges):
-            if i in covered:
-                continue
-            p = path_to(f) + [i]
-            covered.add(i)
-            cur = t
-            while True:
-                nxt = [j for j in out_edges.get(cur, ()) if j not in covered]
-                if not nxt:
-                    break
-                p.append(nxt[0])
-                covered.add(nxt[0])
-                cur = self.edges[nxt[0]][3]
-            paths.append(p)
-        return paths
+from tlcgraph import Graph, dump      # noqa: E402
 
 
 def dump_graph(scname, sc=None, timeout=900):
-    """Run TLC with the EdgeDump action constraint (one worker) and parse the printed transitions."""
+    """Run TLC with the EdgeDump action constraint (one worker) and parse the printed transitions of spec/MC.tla."""
     sc = dict(sc or SCENARIOS[scname])
-    tmp = tempfile.mkdtemp(prefix='verif-dump-')
-    g = Graph(scname, sc)
-    try:
-        cfg = os.path.join(tmp, f'{scname}.cfg')
-        with open(cfg, 'w') as fh:
-            fh.write(cfg_text(sc, spec='DumpSpec', action_constraint='EdgeDump'))
-        meta = os.path.join(tmp, 'meta')
-        cmd = ['java', '-XX:+UseParallelGC', '-Xmx6g', '-cp', common.TLC_JARS, 'tlc2.TLC', '-metadir', meta,
-               '-noGenerateSpecTE', '-workers', '1', '-config', cfg, 'MC.tla']
-        p = subprocess.Popen(cmd, cwd=common.SPEC, stdout=subprocess.PIPE, stderr=subprocess.STDOUT)
-        index = {}
-        maxspi = sc['MaxSpi']
-        tail = collections.deque(maxlen=40)
-        t0 = time.time()
-
-        def disc(st, key):
-            i = index.get(key)
-            if i is None:
-                i = index[key] = len(g.states)
-                g.states.append(st)
-                if all(v <= maxspi for v in st['nspi'].values()):
-                    g.expanded.append(i)
-            return i
-        for raw in p.stdout:
-            line = raw.decode(errors='replace')
-            if line.startswith('<<"EDGE", "'):
-                d = json.loads(json.loads(line[len('<<"EDGE", '):line.rindex('>>')]))
-                tkey = json.dumps(d['t'], sort_keys=True)
-                if not g.states:
-                    raise common.MachineryError('edge before initial state')
-                ti = disc(d['t'], tkey)
-                fi = g.expanded[d['f'] - 1]
-                g.edges.append((fi, d['a'], d['dd'], ti))
-            elif line.startswith('<<"INIT", "'):
-                d = json.loads(json.loads(line[len('<<"INIT", '):line.rindex('>>')]))
-                disc(d, json.dumps(d, sort_keys=True))
-            else:
-                tail.append(line)
-                m = re.search(r'(\d+) states generated, (\d+) distinct states found', line)
-                if m:
-                    g.generated, g.distinct = int(m.group(1)), int(m.group(2))
-            if time.time() - t0 > timeout:
-                p.kill()
-                raise common.MachineryError(f'TLC dump of {scname} timed out')
-        p.wait()
-        text = ''.join(tail)
-        if 'Model checking completed. No error has been found' not in text:
-            raise common.MachineryError(f'TLC dump of {scname} failed:\n{text}')
-        if g.distinct != len(g.states):
-            raise common.MachineryError(f'dump of {scname}: {len(g.states)} states parsed, TLC reports {g.distinct}')
-        return g
-    finally:
-        shutil.rmtree(tmp, ignore_errors=True)
+    maxspi = sc['MaxSpi']
+    return dump('MC.tla', cfg_text(sc, spec='DumpSpec', action_constraint='EdgeDump'), scname, sc,
+                lambda st: all(v <= maxspi for v in st['nspi'].values()), timeout=timeout)
 
 
 # --------------------------------------------------------------------------------------------------------- parallel replay
